@@ -349,7 +349,7 @@ REGISTRY = {
                         "batch ids non-zero (snowflake ids are positive); file-system calls do not fail"],
     },
     "C06": {
-        "corr": lambda tier, seed: corr_engine("C06", tier, seed, "mergeheavy,batches,bigvals", 120, 3000, ops=30,
+        "corr": lambda tier, seed: corr_engine("C06", tier, seed, "mergeheavy,racingmerge,batches,bigvals", 120, 3000, ops=30,
                                                dflags="-noevents -skip stat,pos", oracle_props=["C06", "C02", "C01", "C05"]),
         "assumptions": ["the order in which Merge scans its input files is an input of the model, observed from the implementation (hook H5); the theorems need it to cover every data file, which the driver checks for every observed order (Go ranges over the map of all older files)",
                         "merges run between operations (Merge holds the engine lock while it scans: C09); interleavings with concurrent writers are not part of this model",
